@@ -62,6 +62,14 @@ def run(ctx):
     rows = ctx.correspond(impl, model, "c02_parse", cases, classify=classify,
                           nontrivial=lambda c, o: len(c.split(" ")[3]) > 2, describe=describe,
                           compare=lambda i, m: i == strip_dropped(m))
+    comp = composed_sample(ctx, cases, limit=2500 if ctx.tier == "quick" else 40000)
+    ctx.correspond(impl, model, "c02_parse", comp, classify=classify, nontrivial=lambda c, o: True,
+                   describe=describe,
+                  compare=lambda i, m: i == strip_dropped(m))
+    ctx.cov["composed_with_lexer_model"] = {
+        "cases": len(comp),
+        "note": "these cases carry no items: the model runner lexes the source with Lex/Fun.v (lex_all / lex_limited) and "
+                "parses the result, so lexer model + parser model composed are tied to the code as well"}
     fam = ctx.cov["families"]["c02_parse"]
     fam["documents_with_error_tokens"] = sum(1 for _, i, _ in rows if "ERROR:" in i)
     fam["multibyte_inputs"] = sum(1 for c, _, _ in rows if any(ord(ch) > 127 for ch in unhexs(c.split(" ")[3])))
@@ -77,7 +85,7 @@ def run(ctx):
         "tree text == input, every range on a character boundary, tokens tile the input once in order.")
     ctx.cov["exhaustive"] = False
     ctx.assumptions += [
-        "interim tie: the model is fed the items the real lexer yields; lex_concat (the items' data concatenate to the input) is C03's theorem",
+        "most cases feed the parser model the items the real lexer yields (fast); a sample runs lexer model + parser model composed on the source string",
         "node nesting is deliberately not part of the observation (reported for information under node_structure_informational)",
     ]
     return ctx.finish(props)
